@@ -8,7 +8,7 @@ C20_Structural and C20_ParsedEqual on the recorded visible values and results.""
 from lib import common, valuesprofile as vp
 from bind import replay_packet as rp
 
-OWNED = {"C20_Total", "C20_Structural", "C20_ParsedEqual"}
+OWNED = {"C20_Total", "C20_Structural", "C20_ParsedEqual", "C20_ChangeMakesUnequal"}
 
 
 def run(tier, seed):
